@@ -361,7 +361,22 @@ func c20RaftProperty(t *rapid.T) {
 	ops = append(ops, fmt.Sprintf("cluster size=%d snapshotCount=%d batchSize=%d faults=%d", size, snap, batchSize, len(net.script)))
 	waitLeader := func() *raftReplica {
 		deadline := time.Now().Add(15 * time.Second)
+		// usually the replica that leads (clients talk to the leader when they know it), sometimes any replica
+		// that knows a leader
+		wantLeader := rapid.IntRange(0, 3).Draw(t, "viaLeader") != 0
 		for time.Now().Before(deadline) {
+			if wantLeader && time.Until(deadline) > 14*time.Second-500*time.Millisecond {
+				for _, r := range reps {
+					net.mu.Lock()
+					alive, n := r.alive, r.node
+					net.mu.Unlock()
+					if alive && n != nil && n.Ready() == nil && etcdraft.VerifIsLeader(n.(*etcdraft.Node)) {
+						return r
+					}
+				}
+				time.Sleep(10 * time.Millisecond)
+				continue
+			}
 			for _, r := range reps {
 				net.mu.Lock()
 				alive, n := r.alive, r.node
@@ -462,7 +477,7 @@ func c20RaftProperty(t *rapid.T) {
 		}
 		// leader-crash episode: the replica that accepted (and proposed) the transactions goes down shortly afterwards,
 		// while its entries may be appended on the others but not committed yet
-		leaderCrash := !noCrash && size == 3 && (rapid.IntRange(0, 3).Draw(t, "leaderCrash") == 0 || forceLC)
+		leaderCrash := !noCrash && size == 3 && (rapid.IntRange(0, 2).Draw(t, "leaderCrash") == 0 || forceLC)
 		if leaderCrash && rapid.Bool().Draw(t, "slowGossip") {
 			// ... and the gossip of these transactions is slow: the others see them in a log entry first and get the
 			// broadcast after the leader change
@@ -478,7 +493,8 @@ func c20RaftProperty(t *rapid.T) {
 		}
 		ops = append(ops, fmt.Sprintf("round %d: %d transactions via replica %d (next nonces %v) @%dms", rd, cnt, entry.id, next, time.Since(processStart).Milliseconds()))
 		if leaderCrash {
-			time.Sleep(time.Duration(rapid.IntRange(5, 120).Draw(t, "shortWaitMs")) * time.Millisecond)
+			// mostly within a heartbeat interval (20 ms): the followers hold the last entry but have not heard of its commit
+			time.Sleep(time.Duration(rapid.SampledFrom([]int{0, 1, 2, 3, 5, 8, 12, 20, 40, 80, 120}).Draw(t, "shortWaitMs")) * time.Millisecond)
 		} else {
 			if healEarly {
 				// connected again while the executor of the replica that was cut off may still be busy
